@@ -180,6 +180,7 @@ def run_family(ctx, family, tier=None, seed=None, replay_cases=None):
                 os.remove(out)
             rc, log = vlib.sh([exe, "-test.run", "TestHarness", "-test.timeout", "1200s"], cwd=d, env=env, timeout=1500)
             last_begin = None
+            last_plan = {}
             if os.path.exists(out):
                 with open(out) as f:
                     for line in f:
@@ -192,22 +193,28 @@ def run_family(ctx, family, tier=None, seed=None, replay_cases=None):
                             continue
                         if "begin" in o and "stage" not in o:
                             last_begin = o["begin"]
+                            last_plan = o.get("plan") or {}
                         else:
                             cases[o["idx"]] = o
             if rc == 0:
                 break
             crashes += 1
-            if last_begin is None or crashes > 25:
+            if last_begin is None:
                 raise vlib.HarnessError("harness/pool failed (rc %d):\n%s" % (rc, log[-2000:]))
             # the process died inside (or right after) case last_begin: a panic or a deadlocked goroutine
             msg = "\n".join(l for l in log.split("\n") if "panic" in l or "deadlock" in l or "fatal" in l)[:400] or log[-400:]
             c = cases.get(last_begin)
             if c is None:
-                c = {"idx": last_begin, "family": family, "stage": {"kind": "void"}, "icaps": [1], "ocaps": [1],
-                     "inputs": [], "moves": [], "calls": [], "gen": "crashed-before-observation"}
+                c = {"idx": last_begin, "family": family, "stage": last_plan.get("stage") or {"kind": "void"},
+                     "icaps": last_plan.get("icaps") or [], "ocaps": [1, 1],
+                     "inputs": last_plan.get("inputs") or [], "moves": [], "calls": [],
+                     "gen": "crashed-before-observation (" + str(last_plan.get("gen")) + ")"}
                 cases[last_begin] = c
             c["crash"] = msg
             start = last_begin + 1
+            if crashes >= 8:
+                # the library crashes again and again: what has been recorded is enough to report
+                break
         ctx.notes["harness_crashes"] = crashes
         return [cases[k] for k in sorted(cases)]
     finally:
